@@ -46,7 +46,7 @@ def make_scene(seed, kind):
     def src(x, y, amp, fa=1.0, fb=1.0, th=0.0):
         comps.append((amp, x, y, s0 * fa, s0 * fb, th))
 
-    if kind in ("sparse", "far"):
+    if kind in ("sparse", "far", "mixedmaps"):
         for _ in range(rng.randint(3, 8)):
             src(rng.uniform(12, W - 12), rng.uniform(12, H - 12), rng.uniform(8, 60) * rng.choice([1, 1, -1]),
                 rng.uniform(1, 2), rng.uniform(1, 1.5), rng.uniform(0, math.pi))
@@ -114,6 +114,11 @@ def make_scene(seed, kind):
     if kind == "empty":
         kw["innerclip"] = 9
         kw["outerclip"] = 8
+    if kind == "mixedmaps":
+        # the caller insists on a background constant (that is NOT what an estimator would find) and supplies the
+        # noise as a map file: islands are those of |image - 1.5| / noise map
+        kw = dict(kw, bkg=1.5)
+        del kw["rms"]
     sc = {"shape": shape, "header": h, "img": img, "comps": comps, "kw": kw, "kind": kind, "seed": seed}
     if kind == "psfmap":
         from astropy.io import fits
@@ -204,11 +209,18 @@ def run_prior(path, cat, kw, stage, regroup, ratio=None):
     return sf, out
 
 
-def oracle_islands(sf, kw):
+def oracle_islands(sf, kw, raw=None):
     from AegeanTools.source_finder import find_islands
     gd = sf.global_data
-    isl = find_islands(im=gd.img, bkg=np.zeros_like(gd.img), rms=gd.rmsimg, seed_clip=kw["innerclip"],
-                       flood_clip=min(kw["outerclip"], kw["innerclip"]))
+    if raw is not None:
+        # independent of the maps the pipeline ended up with: the image as written, the forced background, unit noise
+        data = np.array(raw, dtype=np.float32).astype(float) - float(kw["bkg"])
+        isl = find_islands(im=data, bkg=np.zeros_like(data), rms=np.ones_like(data), seed_clip=kw["innerclip"],
+                           flood_clip=min(kw["outerclip"], kw["innerclip"]))
+        gd = type("G", (), {"img": data})()
+    else:
+        isl = find_islands(im=gd.img, bkg=np.zeros_like(gd.img), rms=gd.rmsimg, seed_clip=kw["innerclip"],
+                           flood_clip=min(kw["outerclip"], kw["innerclip"]))
     out = []
     for n, i in enumerate(isl, start=1):
         (r0, r1), (c0, c1) = [[int(x) for x in b] for b in i.bounding_box]
